@@ -53,7 +53,9 @@ def gen_frag(rng, tier):
         yield {"ctx": u.export_ctx(), "value": value, "clazz": "Root", "desc": desc, "_uni": u.modname, "feat": W.FEAT,
                "ns_map": [], "cfg": {}}
     for _ in range(BC.n_cases(tier, 60, 1500)):
-        u, desc, ctx = BC.new_universe(rng, W.WIDE_FEATURES)
+        # wildcard fields are a C01 feature outside `ctxLexOK`: keep them to a third of the universes
+        feats = W.WIDE_FEATURES if rng.random() < 0.33 else W.WIDE_FEATURES - {"wildcard", "any", "mixed"}
+        u, desc, ctx = BC.new_universe(rng, feats)
         if rng.random() < 0.12:
             try:
                 d2 = _spoil_desc(rng, desc)
